@@ -65,6 +65,8 @@ def enc_cases(tier):
         for m in (1, n // 2):
             out.append(("%s/teardown-after-%d-packets-of-final-drain" % (cname, m), dict(base, n=n, teardown_at=n + 1 + m, pat="n")))
         out.append(("%s/full-session" % cname, dict(base, n=n)))
+    # the configurations with few teardown points first: a deadline must not cut a whole configuration class
+    out.sort(key=lambda c: 0 if c[0].split("/")[0] in TOOL_CFGS else 1)
     return out
 
 
